@@ -100,7 +100,7 @@ def nested_param_edit(rng, spec):
     # structural hyper-parameters (changed in the direction that keeps every constraint satisfied)
     struct = [k for k in ("min_segment_length", "max_interval_length", "max_segment_length", "growth_factor")
               if isinstance(kw.get(k), (int, float)) and not isinstance(kw.get(k), bool)]
-    if struct and rng.random() < 0.4:
+    if struct and rng.random() < 0.65:
         k = struct[int(rng.integers(len(struct)))]
         if k == "min_segment_length":
             if kw[k] <= 2:
@@ -453,7 +453,7 @@ def history(ctx, seed):
                     o.obj = build(o.spec)
                     o.train = None
                 log.append((step, short(o.spec)[:40], "update", Bf.shape, st))
-            elif r < 0.40 and not o.shared:
+            elif r < 0.44 and not o.shared:
                 ed = nested_param_edit(rng, o.spec)
                 if ed is None:
                     continue
@@ -491,7 +491,7 @@ def history(ctx, seed):
                                   f"{short(o.spec)}.set_params({params}) raised {type(ex).__name__}: {ex}",
                                   {"seed": seed, "step": step})
                 log.append((step, short(o.spec)[:40], "set_params", params, "ok"))
-            elif r < 0.46 and not o.shared:
+            elif r < 0.50 and not o.shared:
                 # continue the history on a clone (must carry the configuration, not the fitted state)
                 try:
                     o.obj = o.obj.clone()
